@@ -23,6 +23,8 @@ pub struct Obs {
     /// the injected failure emulates a process stop: every later storage call fails as well
     /// (and, through `stopped`, every later server request)
     pub sticky: bool,
+    /// the order in which the most recent `all_tasks()` call enumerated the tasks
+    pub last_all_order: Vec<Uuid>,
     pub stopped: Option<std::sync::Arc<std::sync::atomic::AtomicBool>>,
 }
 
@@ -106,7 +108,9 @@ impl StorageTxn for ObsTxn<'_> {
     }
     async fn all_tasks(&mut self) -> Result<Vec<(Uuid, TaskMap)>, Error> {
         self.tick()?;
-        self.inner.all_tasks().await
+        let r = self.inner.all_tasks().await?;
+        self.obs.lock().unwrap().last_all_order = r.iter().map(|(u, _)| *u).collect();
+        Ok(r)
     }
     async fn all_task_uuids(&mut self) -> Result<Vec<Uuid>, Error> {
         self.tick()?;
